@@ -144,6 +144,15 @@ def run(an: Analysis, rep):
     rep.run(c03.r035, an, SharedRules(rep, "R01.W", "operand width thresholds (shared with C03's R03.5): an instruction whose recorded width equals the minimal one carries no override, so the encoder's size function must be CPython's"))
     rep.run(c03.r038, an, SharedRules(rep, "R01.F", "the encoder keys a line (and its extra table entries) at the first code unit of the instruction (shared with C03's R03.8)"))
     rep.run(truthiness_rule, an, rep, "R01.T", ["from_code", "to_code"], [("Instruction", "line_number"), ("AdditionalLine", "line")])
+    shfold = SharedRules(rep, "R01.E", "decoder and encoder folded over witness code units / block lists / tables (shared with C02's R02.F, C03's R03.E / R03.T / R03.Y, C10's R10.F, "
+                         "C11's R11.5): what the decoder reports is what CPython's disassembler reports and what the encoder writes reads back as the data - both are needed for to_code(from_code(c)) == c")
+    from . import line_fold as _lf
+    rep.run(c02.r02f, an, shfold)
+    rep.run(c03.r03e, an, shfold)
+    rep.run(c03.r03t, an, shfold)
+    rep.run(c03.r03y, an, shfold)
+    rep.run(_lf.fold_rule, an, shfold)
+    rep.run(c11.r115, an, shfold)
     rep.run(c10.format_rules, an, SharedRules(rep, "R01.L", "line-table format constants (shared with C10's R10.*): byte equality of co_lnotab / co_linetable needs them"))
     rep.run(c02.jump_rules, an, SharedRules(rep, "R01.J", "jump scale / offsets / cell-free shift on both sides (shared with C02's R02.3-R02.5): byte equality of co_code needs them"))
     for (cq, fname), (ok, cfg, why, where) in sorted(produced_any.items()):
